@@ -28,7 +28,8 @@ type cliStep struct {
 	Clock   int64  `json:"clock"`
 	Tick    bool   `json:"tick"`
 	SetRTO  int    `json:"setrto"`
-	Do      bool   `json:"do"` // (on a caller's first step) the caller is Client.Do
+	Do      bool   `json:"do"`  // (on a caller's first step) the caller is Client.Do
+	Dup     bool   `json:"dup"` // the caller's whole call: a Start/Do with a transaction id that is registered already
 	Deliver struct {
 		Kind string `json:"kind"`
 		ID   string `json:"id"`
@@ -43,6 +44,7 @@ type cliSchedule struct {
 	Fallback    bool      `json:"fallback"`
 	MsgSize     int       `json:"msgsize"`
 	CloseFault  string    `json:"closefault"` // "", "conn" or "agent": which Close reports an error
+	SameID      bool      `json:"sameid"`     // both callers use the transaction id of the first one
 }
 
 var gateToPC = map[string][2]string{ // gate -> pc outside / inside a callback
@@ -64,20 +66,23 @@ var gateToPC = map[string][2]string{ // gate -> pc outside / inside a callback
 }
 
 type replayer struct {
-	c       *gctl
-	cli     *stun.Client
-	conn    *gConn
-	depth   map[string]int
-	done    map[string]bool
-	started map[string]bool
-	emit    func(map[string]interface{})
-	sch     cliSchedule
-	drifted bool
-	logging int32
-	isDo    map[string]bool // callers that use Client.Do
-	isInd   map[string]bool // callers that use Client.Indicate
-	waiting map[string]bool // Do callers seen blocked in callbackWaitHandler.wait
-	hdone   map[string]bool // callers whose handler has returned (guarded by c.mu)
+	c        *gctl
+	cli      *stun.Client
+	conn     *gConn
+	depth    map[string]int
+	done     map[string]bool
+	started  map[string]bool
+	emit     func(map[string]interface{})
+	sch      cliSchedule
+	drifted  bool
+	logging  int32
+	isDo     map[string]bool // callers that use Client.Do
+	isInd    map[string]bool // callers that use Client.Indicate
+	ndeliver int             // datagrams delivered so far in this schedule
+	ga       *gAgent
+	driftSeq int             // number of the last agent call begun before the first drift
+	waiting  map[string]bool // Do callers seen blocked in callbackWaitHandler.wait
+	hdone    map[string]bool // callers whose handler has returned (guarded by c.mu)
 }
 
 const stepTimeout = 6 * time.Second
@@ -100,6 +105,11 @@ func modelID(id string) int {
 }
 
 func (r *replayer) drift(why string, st cliStep, got string) {
+	if !r.drifted && r.ga != nil {
+		r.ga.hmu.Lock()
+		r.driftSeq = r.ga.seq
+		r.ga.hmu.Unlock()
+	}
 	r.drifted = true
 	if r.cli != nil && !r.done["RD"] && !r.readerAlive() {
 		// the reader goroutine is gone although the model has it parked at a gate
@@ -415,7 +425,11 @@ func (r *replayer) looseStep(st cliStep) {
 
 func (r *replayer) spawnStart(p string, refusedVariant int) {
 	idx := startIndex(p)
-	id := cliID(idx)
+	idIdx := idx
+	if r.sch.SameID {
+		idIdx = 1
+	}
+	id := cliID(idIdx)
 	size := r.sch.MsgSize
 	m := new(stun.Message)
 	m.TransactionID = id
@@ -432,11 +446,13 @@ func (r *replayer) spawnStart(p string, refusedVariant int) {
 	snapshot := append([]byte(nil), m.Raw...)
 	h := func(e stun.Event) {
 		var raw []int
+		attrs := [][3]int{}
 		if e.Message != nil {
 			raw = ints(e.Message.Raw)
+			attrs = snapshotAttrs(e.Message)
 		}
 		r.emit(map[string]interface{}{"k": "handler", "s": idx, "p": r.c.procName(), "kind": evKind(e),
-			"id": idIndex(e.TransactionID), "msg": raw, "t": r.c.now()})
+			"id": idIndex(e.TransactionID), "msg": raw, "attrs": attrs, "t": r.c.now()})
 		r.c.arrive("uh", nil)
 		r.emit(map[string]interface{}{"k": "handler_done", "s": idx})
 		r.c.mu.Lock()
@@ -449,7 +465,7 @@ func (r *replayer) spawnStart(p string, refusedVariant int) {
 	}
 	go func() {
 		r.c.register(p)
-		r.emit(map[string]interface{}{"k": "start_call", "s": idx, "id": idx, "raw": ints(snapshot), "t": r.c.now(), "do": useDo, "ind": refusedVariant == 2})
+		r.emit(map[string]interface{}{"k": "start_call", "s": idx, "id": idIdx, "raw": ints(snapshot), "t": r.c.now(), "do": useDo, "ind": refusedVariant == 2})
 		var err error
 		switch {
 		case useDo: // (refusedVariant 1: the model says this call is refused at once; Do and Indicate must be refused alike)
@@ -514,6 +530,7 @@ func runSchedule(tw *traceWriter, sch cliSchedule) {
 	r.c = newGctl(r.emit)
 	r.conn = &gConn{c: r.c, closeCh: make(chan struct{}), inQ: make(chan []byte, 16)}
 	ga := &gAgent{c: r.c, a: stun.NewAgent(nil)}
+	r.ga = ga
 	switch sch.CloseFault {
 	case "conn":
 		r.conn.closeErr = errors.New("injected connection close error")
@@ -525,10 +542,12 @@ func runSchedule(tw *traceWriter, sch cliSchedule) {
 	if sch.Fallback {
 		opts = append(opts, stun.WithHandler(func(e stun.Event) {
 			var raw []int
+			attrs := [][3]int{}
 			if e.Message != nil {
 				raw = ints(e.Message.Raw)
+				attrs = snapshotAttrs(e.Message)
 			}
-			r.emit(map[string]interface{}{"k": "fallback", "p": r.c.procName(), "kind": evKind(e), "id": idIndex(e.TransactionID), "msg": raw})
+			r.emit(map[string]interface{}{"k": "fallback", "p": r.c.procName(), "kind": evKind(e), "id": idIndex(e.TransactionID), "msg": raw, "attrs": attrs})
 			r.c.arrive("fb", nil)
 		}))
 	}
@@ -604,11 +623,33 @@ func runSchedule(tw *traceWriter, sch cliSchedule) {
 				}
 			} else {
 				// datagram sizes up to the client's 1024-byte read buffer (exactly full included)
-				extra := []int{3 + id, 3 + id, 488, 996, 1000}[sch.Tr%5]
+				// (sizes change from one delivery to the next; -1: a bare header, nothing for the decoder to do)
+				r.ndeliver++
+				extra := []int{3 + id, -1, 3 + id, 488, 996, -1, 1000}[(sch.Tr+r.ndeliver)%7]
 				data = respMessage(cliID(id), extra)
 			}
 			r.c.inbox, r.c.hasInbox = data, true
 			r.emit(map[string]interface{}{"k": "deliver", "kind": st.Deliver.Kind, "id": id, "raw": ints(data)})
+		case st.From == "idle" && st.Dup:
+			// a duplicate Start / Do: one model action - the call runs through its gates to its return (refused)
+			r.started[st.P] = true
+			r.isDo[st.P] = sch.Tr%2 == 1
+			r.spawnStart(st.P, 0)
+			for {
+				a, fin, ok := r.waitFor(st.P)
+				if !ok {
+					r.drift("no-arrival", st, "timeout")
+					break
+				}
+				if fin {
+					break
+				}
+				if a.name != "clock.Now" && a.name != "client.start" {
+					r.drift("wrong-gate", st, r.pcOf(a)) // a refused duplicate gets no further than the registration
+					break
+				}
+				r.release(st.P, gateResp{})
+			}
 		case st.From == "idle":
 			r.started[st.P] = true
 			variant := 0
@@ -753,10 +794,14 @@ func runSchedule(tw *traceWriter, sch cliSchedule) {
 			}
 		}
 	}
-	if !r.drifted && agentTW != nil {
-		// the Agent's own history in this run (calls are sequential in a gated replay), judged against AgentCore
+	if agentTW != nil {
+		// the Agent's own history in this run (calls are sequential in a gated replay), judged against AgentCore;
+		// of a run that left the model's behaviour, the part up to that point
 		agentTW.emit(map[string]interface{}{"k": "new", "tr": sch.Tr, "h": 0, "n": 3, "tl": 0})
 		for _, c := range ga.history() {
+			if r.drifted && c.Seq > r.driftSeq {
+				break
+			}
 			agentTW.emit(map[string]interface{}{"k": "call", "tr": sch.Tr, "op": c.Op, "id": c.ID, "d": c.D, "t": c.T, "h": c.H,
 				"res": c.Res, "evs": c.Evs})
 		}
